@@ -169,6 +169,8 @@ func (c *roomCtx) refsClass(cls string, valid interface{}, selfID string) (inter
 			ids = append(ids, someID)
 		}
 		return c.refs(ids), true
+	case "tuple_empty":
+		return []interface{}{[]interface{}{}}, true
 	case "tuple_short":
 		return []interface{}{[]interface{}{someID}}, true
 	case "tuple_long":
